@@ -296,27 +296,36 @@ func (r *Runner) step(bctx sdk.Context, b string, i int, in Input) Line {
 	ln.Obs = Obs{OrbPre: w.orbAll(bctx), OthersPre: w.othersDigest(bctx), Req: []Req{}, Xfers: []Xfer{},
 		Events: []string{}, Ctl: emptyCtl(), Fired: []string{}}
 
+	// a discarded step runs on a branch of the behaviour's context that is never written back
+	// (what baseapp does with a transaction whose later message fails, and with simulations)
+	ectx := bctx
+	if in.Disc {
+		ectx, _ = bctx.CacheContext()
+	}
 	switch in.T {
 	case "recv":
-		r.doRecv(bctx, &ln)
+		r.doRecv(ectx, &ln)
 	case "admin":
-		r.doAdmin(bctx, &ln)
+		r.doAdmin(ectx, &ln)
 	case "deposit":
-		r.doDeposit(bctx, &ln)
+		r.doDeposit(ectx, &ln)
 	case "env":
-		r.doEnv(bctx, &ln)
+		r.doEnv(ectx, &ln)
 	case "reimport":
-		r.doReimport(bctx, &ln)
+		r.doReimport(ectx, &ln)
 	case "query":
-		r.doQuery(bctx, &ln)
+		r.doQuery(ectx, &ln)
 	case "ackpkt", "timeout":
-		r.doAckTimeout(bctx, &ln)
+		r.doAckTimeout(ectx, &ln)
 	case "ident":
-		r.doIdent(bctx, &ln)
+		r.doIdent(ectx, &ln)
 	case "gendoc":
-		r.doGendoc(bctx, &ln)
+		r.doGendoc(ectx, &ln)
 	default:
 		panic(machineryError{"unknown input kind " + in.T})
+	}
+	if in.Disc && in.T == "admin" {
+		ln.Obs.X = r.pauseQueries(bctx) // the views after the branch is dropped
 	}
 
 	ln.Post = w.project(bctx)
